@@ -3087,9 +3087,9 @@ EbErrorType svt_svt_enc_init_parameter(
     config_ptr->vbv_bufsize = 0;
     config_ptr->render_width = 0;
     config_ptr->render_height = 0;
-    config_ptr->enable_qp_scaling_flag = 1;
+    config_ptr->enable_qp_scaling_flag = 0;
     config_ptr->enable_denoise_flag = 0;
-    config_ptr->in_loop_me_flag = EB_TRUE;
+    config_ptr->in_loop_me_flag = EB_FALSE;
     config_ptr->manual_pred_struct_entry_num = 0;
     memset(config_ptr->pred_struct, 0, sizeof(config_ptr->pred_struct));
 #if FTR_ENABLE_FIXED_QINDEX_OFFSETS
